@@ -526,12 +526,16 @@ int runCheck(const Opts &o, Check<Inst> &c) {
   };
 
   // idx -> instance (parent side, by re-enumeration)
+  struct StopEnumeration {};
   auto instanceAt = [&](long long want, Inst &out) -> bool {
     long long idx = 0;
     bool found = false;
-    c.enumerate([&](const Inst &inst) {
-      if (idx++ == want) { out = inst; found = true; }
-    });
+    try {
+      c.enumerate([&](const Inst &inst) {
+        if (idx++ == want) { out = inst; found = true; throw StopEnumeration(); }
+      });
+    } catch (const StopEnumeration &) {
+    }
     return found;
   };
 
